@@ -40,9 +40,10 @@ def run(ctx):
                  'is dumped. Compared with the model call by call and with the one-shot read of the same bytes.')
     reps = [synth.gen_wf(rng, nframes=rng.choice([0, 1, 2, 3, 5])) for _ in range(600 if thorough else 120)]
     for v in [(0, 1), (1, 0), (2, 0), (2, 2), (2, 9)]:
-        r = synth.gen_wf(rng, v, nframes=3, ports=[(0, True), (1, False)], end=rng.choice(['single', None]), gecko=0, absent=0)
-        f = r.frames[-1]; f.chars = f.chars[:1]
-        reps.append(r)
+        for e in ('single', None):       # without Game End this is the recorded known finding: always exercised
+            r = synth.gen_wf(rng, v, nframes=3, ports=[(0, True), (1, False)], end=e, gecko=0, absent=0)
+            f = r.frames[-1]; f.chars = f.chars[:1]
+            reps.append(r)
     cases = []; one = []
     for i, r in enumerate(reps):
         b = synth.emit(r)
